@@ -119,7 +119,7 @@ def c09(tier):
     return [mint_h('VHarnessSignAndFees', '1 arbitrary output against 2 keysets; fee of 0..3 inputs over both keysets, ppk < 2^32', must_reach=('signed', 'refused')),
             mint_h('VHarnessLoadMint', 'fresh start, restart with/without rotation, runtime rotation, restart: fees symbolic (< 4096), all 60 keys of every keyset compared', summaries=('h2c', 'nut10-none', 'loadmint-env'), must_reach=('done',), timeout_s=1200),
             Harness('VHarnessGenerateKeyset', 'crypto', F, models=('std', 'crypto', 'json'), crypto_mode='euf', bounds='every 32-byte seed, every derivation index < 2^31; all 60 keys and the id', must_reach=('done',))]
-W_FILES = ['wallet/zz_verif_env.go', 'wallet/zz_verif_send.go', 'wallet/zz_verif_p2pkkey.go']
+W_FILES = ['wallet/zz_verif_env.go', 'wallet/zz_verif_send.go', 'wallet/zz_verif_p2pkkey.go', 'wallet/zz_verif_flows.go']
 def w_h(name, bounds, **kw):
     kw.setdefault('summaries', ('h2c', 'dleq'))
     kw.setdefault('crypto_mode', 'euf')
@@ -137,6 +137,18 @@ def c18(tier):
         hs += [w_h('VHarnessSelectWide', 'selection kernel: 1..4 proofs of 2^0..2^5', must_reach=('selected',), timeout_s=3000),
                w_h('VHarnessSendWide', 'Send end to end: 1..3 proofs of 2^0..2^4', must_reach=('sent',), timeout_s=3000)]
     return hs
+def c19(tier):
+    return [w_h('VHarnessWalletMint', 'mint tokens: stored counter symbolic (< 2^30), quote amount 1..11, mint signs or refuses', must_reach=('minted', 'mint-failed')),
+            w_h('VHarnessWalletMintThenSend', 'mint 8 then send 1..8 through a swap', must_reach=('sent',)),
+            w_h('VHarnessRestore', 'restore from the mnemonic: signed pattern over the first 4 batches of 100 outputs (2^4 patterns), both keysets scanned', must_reach=('restored',), timeout_s=1800)]
+def c08(tier):
+    return [w_h('VHarnessWalletMint', 'mint tokens', must_reach=('minted',)),
+            w_h('VHarnessWalletMintThenSend', 'mint (proofs stored with DLEQ e,s,r) then send through a swap', must_reach=('sent',)),
+            w_h('VHarnessWalletMelt', 'melt: 1..2 held proofs with/without stored DLEQ data, each payment outcome', must_reach=('melt-outcome-0',))]
+def c17(tier):
+    return [w_h('VHarnessWalletMelt', 'melt: 1..2 held proofs of 2^0..2^3, amount 1..8, reserve 0..2, ppk in {0,100,1000}, outcome paid/pending/failed, pending then settled either way', must_reach=('melt-outcome-0', 'melt-outcome-1', 'melt-outcome-2', 'melt-resolved')),
+            w_h('VHarnessWalletMint', 'mint tokens', must_reach=('minted',)),
+            w_h('VHarnessWalletMintThenSend', 'mint then send through a swap', must_reach=('sent',))]
 def c10(tier):
     kw = dict(models=('std', 'crypto', 'json'), crypto_mode='alg')
     return [Harness('VHarnessBDHKE', 'crypto', ['crypto/zz_verif_bdhke.go'], summaries=('h2c',), bounds='every secret (string of any length), every blinding factor, every key: all symbolic', must_reach=('done',), **kw),
@@ -159,6 +171,9 @@ C10_ASSUME = COMMON_ASSUME + [
 ]
 
 PROPS = {
+    'C19': dict(harnesses=c19, level='bounded symbolic verification: counters submitted vs counters stored per operation, restore arithmetic over a symbolic emptiness pattern', assumptions=WALLET_ASSUME + C11_ASSUME, outside=['bolt.go', 'bip39', 'wallet crash points (the WalletDB calls are instrumented but the crash harness is not built)', 'more than 4 batches']),
+    'C08': dict(harnesses=c08, level='bounded symbolic verification: every HTTP request body produced by the real client.go is decoded and inspected', assumptions=WALLET_ASSUME, outside=['transport below client.go, side channels', 'mint-to-mint swap, multi-mint payments']),
+    'C17': dict(harnesses=c17, level='bounded symbolic verification (reduced scope): per-operation conservation step for one wallet against an honest-contract mint', assumptions=WALLET_ASSUME, outside=['multi-wallet / multi-mint histories as a whole (argued by composition)', 'swapToTrusted / MintSwap / MultiMintPayment', 'bolt.go', 'the real mint behind the fake (C01/C02/C05)']),
     'C18': dict(harnesses=c18, level='bounded symbolic verification of the real selection / swap-to-send code against an honest-contract mint', assumptions=WALLET_ASSUME, outside=['bolt.go', 'amounts above 2^5 per proof, more than 4 held proofs']),
     'C04': dict(harnesses=c04, level='bounded symbolic verification: soundness formula, completeness and explicit mutation classes', assumptions=MINT_ASSUME + ['unforgeability stated explicitly: an arbitrary C is not the valid signature of its secret under one of the mint keys', 'distinct denominations / keysets have distinct private keys'], outside=['BIP-32 derivation collisions', 'hash-to-curve collisions']),
     'C09': dict(harnesses=c09, level='bounded symbolic verification of LoadMint / RotateKeyset / GenerateKeyset executed whole over the storage model', assumptions=MINT_ASSUME + C11_ASSUME, outside=['BIP-32 itself', 'file system, migration runner (InitSQLite summarised as: returns the database of that directory)']),
